@@ -219,6 +219,41 @@ func ruleC12AncestryGuard(c *Ctx) {
 	if n == 0 {
 		c.unresolved("STFS.Rename no longer calls Operations.Move")
 	}
+	// the index store treats "a", "/a" and "./a" as one entry: a textual prefix test must compare both names in a
+	// form from which the leading separator has been removed (or it misses Rename("a", "/a/b"))
+	k := 0
+	walkOwn(f.Body(), func(nd ast.Node) {
+		is, ok := nd.(*ast.IfStmt)
+		if !ok {
+			return
+		}
+		call, ok := ast.Unparen(is.Cond).(*ast.CallExpr)
+		if !ok || !isPkgFunc(calleeObj(info, call), "strings", "HasPrefix") || len(call.Args) != 2 || !usesObj(info, call.Args[0], newV) || !usesObj(info, call.Args[1], oldV) {
+			return
+		}
+		k++
+		stripsLeadingSep := func(e ast.Expr, v *types.Var) bool {
+			found := false
+			ast.Inspect(e, func(m ast.Node) bool {
+				c2, ok := m.(*ast.CallExpr)
+				if !ok || len(c2.Args) != 2 {
+					return true
+				}
+				o := calleeObj(info, c2)
+				if !(isPkgFunc(o, "strings", "TrimPrefix") || isPkgFunc(o, "strings", "TrimLeft")) || !usesObj(info, c2.Args[0], v) {
+					return true
+				}
+				if tv, ok := info.Types[c2.Args[1]]; ok && tv.Value != nil && (tv.Value.String() == `"/"` || tv.Value.String() == `"\\"`) {
+					found = true
+				}
+				return true
+			})
+			return found
+		}
+		good := stripsLeadingSep(call.Args[0], newV) && stripsLeadingSep(call.Args[1], oldV)
+		c.verdictIf(good, rule, f, fmt.Sprintf("subtree test#%d spelling-insensitive", k), is.Pos(), "both names are compared without their leading separator",
+			"the subtree test compares the two names textually as given: a relative spelling of the source (\"a\") is not a prefix of an absolute destination (\"/a/b\") although both address the same entry, so the directory is moved into its own subtree and detached from the root")
+	})
 }
 
 func ruleC12SubtreeCoverage(c *Ctx) {
